@@ -2,7 +2,8 @@
 from checks import emu_common
 
 SPEC, CFG = "VTRef_Trace.tla", "VTRef_Trace.cfg"
-ORACLE_OPS = ["PRINT", "CR", "CUP", "HVP", "CHA", "HPA", "VPA", "SGR", "DECSC", "DECRC", "ALTON", "ALTOFF", "SU", "SD", "DECSTBM",
+ORACLE_OPS = ["PRINT", "CR", "CUP", "HVP", "CHA", "HPA", "VPA", "SGR", "DECSC", "DECRC", "ALTON", "ALTOFF",
+              "ALT47ON", "ALT47OFF", "ALT1047ON", "ALT1047OFF", "SC1048", "RC1048", "SU", "SD", "DECSTBM",
               "LF", "IND", "RI", "NEL", "CUU", "CUD", "CUF", "CUB", "CNL", "CPL", "ED", "EL", "ECH", "ICH", "DCH", "IL", "DL"]
 SIZES = ["2x2", "2x3", "3x2", "3x3", "3x4", "4x5"]
 
